@@ -529,10 +529,13 @@ type Env struct {
 	st   *State
 	old  *State
 	vars map[string]Val
+	// callFresh, when set (postconditions of a callee applied at a call site), yields the caller-side local that
+	// stands for "an object the callee allocated", one per distinct expression
+	callFresh func(key string) *Term
 }
 
 func (e *Env) with(vars map[string]Val) *Env {
-	n := &Env{fx: e.fx, st: e.st, old: e.old, vars: map[string]Val{}}
+	n := &Env{fx: e.fx, st: e.st, old: e.old, vars: map[string]Val{}, callFresh: e.callFresh}
 	for k, v := range e.vars {
 		n.vars[k] = v
 	}
@@ -628,7 +631,7 @@ func (p *Prog) elab(fx *Fx, x *SExp, env *Env) Val {
 	T := func(i int) *Term { return p.elabT(fx, args[i], env) }
 	switch h {
 	case "old":
-		return p.elab(fx, args[0], &Env{fx: env.fx, st: env.old, old: env.old, vars: env.vars})
+		return p.elab(fx, args[0], &Env{fx: env.fx, st: env.old, old: env.old, vars: env.vars, callFresh: env.callFresh})
 	case "len":
 		v := p.elab(fx, args[0], env)
 		return tv(p.lenOf(v))
@@ -852,6 +855,11 @@ func (p *Prog) elab(fx *Fx, x *SExp, env *Env) Val {
 	case "fresh-obj":
 		// the object did not exist on entry
 		v := p.elab(fx, args[0], env)
+		if env.callFresh != nil {
+			// in a callee's postcondition at a call site: the object is one the callee allocated, i.e. a new
+			// object of the caller (distinct from every object the caller has or will allocate itself)
+			return tv(Eq(v.L[objLeaf(v)], env.callFresh(args[0].String())))
+		}
 		return tv(p.isFresh(fx, v.L[objLeaf(v)]))
 	}
 	if bvBin[h] {
